@@ -198,6 +198,11 @@ DefDisp == [kind |-> "service", http |-> "POST", major |-> 1, path |-> "rpc", pr
             readerr |-> "", timeout |-> "", hdrs |-> <<>>, lost |-> <<>>, same |-> FALSE, diff |-> <<>>,
             query |-> "none", herr |-> 0, radapter |-> "", wadapter |-> ""]
 
+\* a backend that fails with a bare HTTP status: the published HTTP -> RPC code mapping
+BareHttpCode(scn, srv) == CodeOfHttp(scn.hd.status)
+
+ClientSideFault(scn) == scn.cl.cut # "" \/ FrameFaulty(scn.cl.frames) \/ scn.cl.clen \in {"over", "under"}
+
 Predict(scn) ==
     LET rej == scn.cl.rej IN
     IF rej \in PreValidationRejects THEN
@@ -210,9 +215,19 @@ Predict(scn) ==
          cl |-> [PredClient(200, "text/plain", "", <<>>, NoEnd, 0) EXCEPT !.raw = TRUE]]
     ELSE
     LET srv == Negotiate(scn)
-        pass == IsPassThru(scn, srv)
-        bframes == BackendFrames(scn, srv)
-        herr == HandlerVerdict(scn, srv, bframes)
+        pass == IsPassThru(scn, srv) IN
+    IF rej \in PostValidationRejects THEN
+        \* operation.reportError after isValid, before any dispatch: an "internal" error in the client's protocol
+        LET end == [NoEnd EXCEPT !.place = (CASE EndInHeaders(scn.cl.form) -> "status" [] scn.cl.form = "connect_stream" -> "frame"
+                                              [] OTHER -> "headers"), !.code = 13, !.msg = "other", !.detok = TRUE]
+        IN [disp |-> <<>>, ret |-> PredRet(0),
+            cl |-> PredClient(IF EndInHeaders(scn.cl.form) THEN 500 ELSE 200, CtFor(scn, TRUE), "", <<>>, end, 1)]
+    ELSE
+    LET nreq == Len(scn.cl.frames)
+        \* the frames of a broken client stream that still reach the backend: the sound prefix
+        okreq == IF ClientSideFault(scn) /\ nreq >= 1 THEN SubSeq(scn.cl.frames, 1, nreq - 1) ELSE scn.cl.frames
+        bframes == [i \in DOMAIN okreq |-> BackendFrame(scn, srv, okreq[i])]
+        herr == IF ClientSideFault(scn) THEN 3 ELSE HandlerVerdict(scn, srv, bframes)
         d == [DefDisp EXCEPT !.same = pass, !.form = srv.form, !.proto = srv.proto, !.codec = srv.codec,
               !.enc = srv.comp, !.frames = SeqOf(bframes, ObsFrame), !.herr = herr,
               !.http = IF srv.form = "connect_get" THEN "GET" ELSE "POST",
@@ -221,14 +236,22 @@ Predict(scn) ==
               !.query = IF srv.form = "connect_get" THEN "connectget" ELSE "none",
               !.radapter = IF pass THEN "none" ELSE ReqAdapter(scn, srv),
               !.wadapter = IF pass THEN "none" ELSE RespAdapter(scn, srv).kind]
-        code == IF herr # 0 THEN herr ELSE scn.hd.end.code
-        nsent == IF herr # 0 THEN 0 ELSE SentCount(scn)
+        bare == herr = 0 /\ scn.hd.end.how = "barehttp"
+        respFault == herr = 0 /\ ~bare /\ C09Faulty(scn)
+        code == CASE herr # 0 -> herr
+                  [] bare -> BareHttpCode(scn, srv)
+                  [] respFault -> 2                    \* some error; the oracle only demands non-OK
+                  [] OTHER -> scn.hd.end.code
+        nsent == CASE herr # 0 \/ bare -> 0
+                   [] respFault -> (IF SentCount(scn) >= 1 THEN SentCount(scn) - 1 ELSE 0)
+                   [] OTHER -> SentCount(scn)
         sent == [i \in 1..nsent |-> ClientFrame(scn, srv, scn.hd.frames[i])]
         \* a client whose end must be in the headers gets no message bytes with an error
         shown == IF code # 0 /\ EndInHeaders(scn.cl.form) THEN <<>> ELSE sent
+        fromHandler == herr = 0 /\ ~bare /\ ~respFault
         end == IF code = 0
                THEN [NoEnd EXCEPT !.place = EndPlace(scn, srv, code, herr, Len(shown)), !.code = 0, !.detok = TRUE]
-               ELSE ErrorEnd(scn, srv, code, herr, Len(shown), herr = 0)
+               ELSE ErrorEnd(scn, srv, code, herr, Len(shown), fromHandler)
         status == IF EndInHeaders(scn.cl.form) THEN HttpOfCode(code) ELSE 200
         enc == IF code # 0 /\ EndInHeaders(scn.cl.form) THEN "" ELSE scn.hd.comp
     IN [disp |-> <<d>>, ret |-> PredRet(1),
